@@ -26,24 +26,28 @@ Mark7 == QOf(497604, 10000000)                      \* 0.0497604 -> Quantize6 = 
 -----------------------------------------------------------------------------
 (* Scen 1 universe *)
 BookC(b) ==
-  CASE b = 1 -> [listed |-> TRUE, asks |-> <<Lv(500, 4), Lv(505, 5), Lv(510, 0), Lv(520, 10)>>, bids |-> <<Lv(490, 4), Lv(485, 5)>>,
+  CASE b = 1 -> [listed |-> TRUE, live |-> TRUE, asks |-> <<Lv(500, 4), Lv(505, 5), Lv(510, 0), Lv(520, 10)>>, bids |-> <<Lv(490, 4), Lv(485, 5)>>,
                  mark |-> Mark7, und |-> QI(2000)]
-    [] b = 2 -> [listed |-> TRUE, asks |-> <<>>, bids |-> <<Lv(490, 2)>>, mark |-> P4(495), und |-> QI(2000)]
-    [] b = 3 -> [listed |-> TRUE, asks |-> <<Lv(500, 0), Lv(505, 2)>>, bids |-> <<Lv(490, 0)>>, mark |-> P4(495), und |-> QI(2000)]
-    [] b = 4 -> [listed |-> TRUE, asks |-> <<Lv(500, 1), Lv(505, 1), Lv(510, 3)>>, bids |-> <<Lv(495, 1), Lv(490, 5), Lv(485, 2)>>,
+    [] b = 2 -> [listed |-> TRUE, live |-> TRUE, asks |-> <<>>, bids |-> <<Lv(490, 2)>>, mark |-> P4(495), und |-> QI(2000)]
+    [] b = 3 -> [listed |-> TRUE, live |-> TRUE, asks |-> <<Lv(500, 0), Lv(505, 2)>>, bids |-> <<Lv(490, 0)>>, mark |-> P4(495), und |-> QI(2000)]
+    [] b = 4 -> [listed |-> TRUE, live |-> TRUE, asks |-> <<Lv(500, 1), Lv(505, 1), Lv(510, 3)>>, bids |-> <<Lv(495, 1), Lv(490, 5), Lv(485, 2)>>,
                  mark |-> Mark7, und |-> QI(2000)]
-    [] b = 5 -> [listed |-> TRUE, asks |-> <<Lv(500, 3), Lv(501, 3), Lv(502, 3), Lv(503, 40)>>, bids |-> <<Lv(499, 3), Lv(498, 3), Lv(497, 3), Lv(496, 3)>>,
+    [] b = 5 -> [listed |-> TRUE, live |-> TRUE, asks |-> <<Lv(500, 3), Lv(501, 3), Lv(502, 3), Lv(503, 40)>>, bids |-> <<Lv(499, 3), Lv(498, 3), Lv(497, 3), Lv(496, 3)>>,
                  mark |-> QOf(4995, 100000), und |-> QI(2000)]
-BookP == [listed |-> TRUE, asks |-> <<Lv(610, 5), Lv(620, 2)>>, bids |-> <<Lv(590, 10)>>, mark |-> P4(600), und |-> QI(2000)]
+BookP == [listed |-> TRUE, live |-> TRUE, asks |-> <<Lv(610, 5), Lv(620, 2)>>, bids |-> <<Lv(590, 10)>>, mark |-> P4(600), und |-> QI(2000)]
 BookIds == IF Level > 1 THEN 1 .. 5 ELSE 1 .. 4
 Books(b) == [i \in I2 |-> IF i = "C" THEN BookC(b) ELSE BookP]
+BooksPGone == [i \in I2 |-> IF i = "C" THEN BookC(1) ELSE NoRow]                      \* P not in the order book of the new bar
+BooksPHalt == [i \in I2 |-> IF i = "C" THEN BookC(1) ELSE [BookP EXCEPT !.live = FALSE]]   \* P listed with state "closed"
+PxEth == QI(1900)                                    \* ETH in the account quote token (C01: market quote token # account quote)
+Wallet0 == QOf(1000005, 1000000)                     \* depositing 1 leaves 5e-6 (< 1e-5 relative): snapped to zero by Asset.sub
 CashAlpha == {QI(5), QOf(12, 100)}
 
 Info1 == [i \in I2 |-> [kind |-> i, K |-> QI(2000), exp |-> 100000]]
 
 AmtAlpha(lv) ==
   LET nz == NonZero(lv)  depth == SumSizes(lv) IN
-  {QOf(4, 10), One, depth, QAdd(depth, One)} \cup (IF nz # <<>> THEN {nz[1].s, QAdd(nz[1].s, One)} ELSE {})
+  {QOf(4, 10), One, depth, QAdd(depth, One), QI(-1)} \cup (IF nz # <<>> THEN {nz[1].s, QAdd(nz[1].s, One)} ELSE {})
 LimAmt(lv)  == LET nz == NonZero(lv) IN {One} \cup (IF nz # <<>> THEN {nz[1].s, QAdd(nz[1].s, One)} ELSE {})
 LimPx(lv)   == {P4(700)} \cup (IF Len(lv) >= 1 THEN {lv[1].p} ELSE {})
                          \cup (IF Len(lv) >= 2 THEN {QMul(lv[2].p, QOf(10005, 10000))} ELSE {})
@@ -62,15 +66,23 @@ TradesP(s) == {Tr(op, "P", a, "mkt", Zero) : op \in {"buy", "sell"}, a \in {One,
                \cup {Tr("sell", "P", QI(5), "lim", P4(590))}
 Events1(s) ==
   TradesC(s) \cup TradesP(s)
-  \cup {[op |-> "deposit", amt |-> One], [op |-> "withdraw", amt |-> QOf(5, 100)], [op |-> "withdraw", amt |-> QI(10)]}
-  \cup (IF s.nref < MaxRefresh THEN {[op |-> "refresh", book |-> Books(b)] : b \in BookIds} ELSE {})
+  \cup {[op |-> "deposit", amt |-> One], [op |-> "withdraw", amt |-> QOf(5, 100)], [op |-> "withdraw", amt |-> QI(10)],
+        [op |-> "deposit", amt |-> QOf(100001, 100000)],     \* 1.00001: overdraft of the wallet within the 1e-5 dust -> snapped
+        [op |-> "deposit", amt |-> QOf(10005, 10000)]}       \* 1.0005 : overdraft beyond the dust -> refused
+  \cup (IF s.nref < MaxRefresh THEN {[op |-> "refresh", open |-> TRUE, hour |-> TRUE, book |-> Books(b)] : b \in BookIds}
+                                    \cup {[op |-> "refresh", open |-> FALSE, hour |-> TRUE, book |-> Books(1)],     \* hour without book row
+                                          [op |-> "refresh", open |-> FALSE, hour |-> FALSE, book |-> s.book],      \* off-hour bar: same row
+                                          [op |-> "refresh", open |-> TRUE, hour |-> TRUE, book |-> BooksPGone],
+                                          [op |-> "refresh", open |-> TRUE, hour |-> TRUE, book |-> BooksPHalt]}
+        ELSE {})
 
-St0 == [cash |-> Zero, pos |-> [i \in I2 |-> ZeroPos], book |-> Books(1), info |-> Info1, px |-> QI(2000), t |-> 0, hour |-> TRUE,
+St0 == [wallet |-> Wallet0, eqBar |-> Zero, cash |-> Zero, pos |-> [i \in I2 |-> ZeroPos], book |-> Books(1), info |-> Info1, px |-> QI(2000), t |-> 0, hour |-> TRUE,
         open |-> TRUE, bar |-> 0, n |-> 0, ntr |-> 0, nref |-> 0, done |-> FALSE, ledger |-> Zero,
         settled |-> [i \in I2 |-> 0], epochs |-> [i \in I2 |-> 0], soldOut |-> [i \in I2 |-> 0], setAt |-> [i \in I2 |-> 0]]
 
-Init1 == /\ c \in {[b |-> b, cash |-> ca] : b \in BookIds, ca \in CashAlpha}
-         /\ st = [St0 EXCEPT !.cash = c.cash, !.ledger = c.cash, !.book = Books(c.b)]
+Init1 == /\ c \in {[b |-> b, cash |-> ca, hour0 |-> TRUE] : b \in BookIds, ca \in CashAlpha}
+                  \cup {[b |-> 1, cash |-> QI(5), hour0 |-> FALSE]}          \* the run starts on an off-hour bar
+         /\ st = [St0 EXCEPT !.cash = c.cash, !.ledger = c.cash, !.book = Books(c.b), !.hour = c.hour0, !.open = c.hour0]
 
 -----------------------------------------------------------------------------
 (* Scen 2 universe *)
@@ -95,7 +107,7 @@ BarTimes(cf) ==
 ListedAt(cf, i, t) == ~(cf.delist /\ t >= Info2(cf)[i].exp)
 Row2(cf, i, h, u) ==
   IF h \in RowsOf(cf) /\ ListedAt(cf, i, 60 * h)
-  THEN [listed |-> TRUE, asks |-> <<Lv(500, 20)>>, bids |-> <<Lv(490, 20)>>, mark |-> cf.mark, und |-> u]
+  THEN [listed |-> TRUE, live |-> TRUE, asks |-> <<Lv(500, 20)>>, bids |-> <<Lv(490, 20)>>, mark |-> cf.mark, und |-> u]
   ELSE NoRow
 BarData(cf, t, u) ==      \* status loaded at bar time t when the hour's underlying is u
   LET h == t \div 60 IN
@@ -117,21 +129,21 @@ Events2(s) ==
 Init2 == /\ c \in Configs2
          /\ \E u \in UAlpha :
               LET b0 == BarData(c, BarTimes(c)[1], u) IN
-              st = [St0 EXCEPT !.cash = QI(10), !.ledger = QI(10), !.info = Info2(c), !.t = b0.t, !.hour = b0.hour, !.open = b0.open,
+              st = [St0 EXCEPT !.wallet = QI(990), !.cash = QI(10), !.ledger = QI(10), !.info = Info2(c), !.t = b0.t, !.hour = b0.hour, !.open = b0.open,
                                !.px = u, !.book = b0.book]
 
 -----------------------------------------------------------------------------
 Events(s) == IF Scen = 1 THEN Events1(s) ELSE Events2(s)
 
 Init == /\ IF Scen = 1 THEN Init1 ELSE Init2
-        /\ last = [ev |-> [op |-> "init"], out |-> "ok", cause |-> "", fills |-> <<>>, fee |-> Zero, acts |-> <<>>, eq |-> Equity(st)]
+        /\ last = [ev |-> [op |-> "init"], out |-> "ok", cause |-> "", fills |-> <<>>, fee |-> Zero, acts |-> <<>>, eq |-> Equity(st), nv |-> NetValue(st, PxEth)]
 
 Next == /\ st.n < MaxOps
         /\ (ContinueAfterReject \/ last.out = "ok")
         /\ \E ev \in Events(st) :
              LET r == Step(st, ev) IN
              /\ st' = r.st
-             /\ last' = [ev |-> ev, out |-> r.out, cause |-> r.cause, fills |-> r.fills, fee |-> r.fee, acts |-> r.acts, eq |-> Equity(r.st)]
+             /\ last' = [ev |-> ev, out |-> r.out, cause |-> r.cause, fills |-> r.fills, fee |-> r.fee, acts |-> r.acts, eq |-> Equity(r.st), nv |-> NetValue(r.st, PxEth)]
         /\ c' = c
 
 Spec == Init /\ [][Next]_vars
@@ -160,6 +172,8 @@ Act_C15_PositionExact_      == [][Act_C15_PositionExact(st, E, R)]_vars
 Act_C15_NoSellUnheld_       == [][Act_C15_NoSellUnheld(st, E, R)]_vars
 Act_C15_EquityMove_         == [][Act_C15_EquityMove(st, E, R)]_vars
 Act_C04_RejectIntact_       == [][Act_C04_RejectIntact(st, E, R)]_vars
+Act_C03_NoValueCreation_    == [][Act_C03_NoValueCreation(st, E, R)]_vars
+Act_C03_NoOverRedemption_   == [][Act_C03_NoOverRedemption(st, E, R)]_vars
 Act_C16_SettleExactlyWhenDue_ == [][Act_C16_SettleExactlyWhenDue(st, E, R)]_vars
 Act_C16_Payoff_             == [][Act_C16_Payoff(st, E, R)]_vars
 Act_C16_TradeOnlyWhenOpen_  == [][Act_C16_TradeOnlyWhenOpen(st, E, R)]_vars
